@@ -357,3 +357,81 @@ func BlankDefaultItemTypes(a any) int {
 	rec(reflect.ValueOf(a), 0)
 	return n
 }
+
+// PerturbScalars visits every addressable scalar reachable from a (a pointer) through exported
+// fields, pointers, interfaces holding pointers and slices -- bool, integer and float fields and
+// non-empty plain strings that are not ids or references -- gives it another value, calls f with
+// the path of the field, and restores it.  Fields that are not serialised (`xml:"-"`) are left
+// alone.  It returns the number of fields visited.
+func PerturbScalars(a any, strings_ bool, f func(path string)) int {
+	n := 0
+	seen := map[uintptr]bool{}
+	var rec func(v reflect.Value, path string, depth int)
+	rec = func(v reflect.Value, path string, depth int) {
+		if depth > 60 || !v.IsValid() {
+			return
+		}
+		switch v.Kind() {
+		case reflect.Pointer:
+			if v.IsNil() || seen[v.Pointer()] {
+				return
+			}
+			seen[v.Pointer()] = true
+			rec(v.Elem(), path, depth+1)
+		case reflect.Interface:
+			if !v.IsNil() && v.Elem().Kind() == reflect.Pointer {
+				rec(v.Elem(), path, depth+1)
+			}
+		case reflect.Struct:
+			for i := 0; i < v.NumField(); i++ {
+				sf := v.Type().Field(i)
+				if !sf.IsExported() || strings.HasPrefix(sf.Tag.Get("xml"), "-") {
+					continue
+				}
+				rec(v.Field(i), path+"."+sf.Name, depth+1)
+			}
+		case reflect.Slice:
+			for i := 0; i < v.Len(); i++ {
+				rec(v.Index(i), fmt.Sprintf("%s[%d]", path, i), depth+1)
+			}
+		case reflect.Bool:
+			if v.CanSet() {
+				old := v.Bool()
+				v.SetBool(!old)
+				n++
+				f(fmt.Sprintf("%s (%v -> %v)", path, old, !old))
+				v.SetBool(old)
+			}
+		case reflect.Int, reflect.Int32, reflect.Int64:
+			if v.CanSet() {
+				old := v.Int()
+				v.SetInt(old + 3)
+				n++
+				f(fmt.Sprintf("%s (%d -> %d)", path, old, old+3))
+				v.SetInt(old)
+			}
+		case reflect.Float64, reflect.Float32:
+			if v.CanSet() {
+				old := v.Float()
+				v.SetFloat(old + 2.5)
+				n++
+				f(fmt.Sprintf("%s (%v -> %v)", path, old, old+2.5))
+				v.SetFloat(old)
+			}
+		case reflect.String:
+			if strings_ && v.CanSet() && v.Type().Kind() == reflect.String && v.Type().PkgPath() == "" && strings.TrimSpace(v.String()) != "" {
+				low := strings.ToLower(path[strings.LastIndex(path, ".")+1:])
+				if strings.Contains(low, "ref") || strings.HasSuffix(low, "id") || strings.Contains(low, "type") || strings.Contains(low, "language") || strings.Contains(low, "namespace") || strings.Contains(low, "xmlns") {
+					return
+				}
+				old := v.String()
+				v.SetString(old + "_v")
+				n++
+				f(fmt.Sprintf("%s (%q -> %q)", path, old, old+"_v"))
+				v.SetString(old)
+			}
+		}
+	}
+	rec(reflect.ValueOf(a), "", 0)
+	return n
+}
